@@ -1,6 +1,6 @@
 """C10 delimited streams read back intact; truncation never yields a partial message.
 
-Space: ALL sequences of length <= 3 (quick) / <= 4 (thorough) over an 8-message
+Space: ALL sequences of length <= 3 (quick) / <= 4 (thorough) over a 9-message
 alphabet (empty, scalar, string, nested, packed, with-unknown-for-the-older-reader,
 second type, long), reader schema in {same, older}, and for every stream EVERY cut
 point 0..len.
@@ -25,6 +25,7 @@ LEVEL = "fault_enumeration"
 W_FIELDS = (
     Field("a", 1, "int32"), Field("s", 2, "string"), Field("sub", 3, "msg:Sub"),
     Field("r", 4, "int32", "repeated"), Field("extra", 5, "int64"), Field("o", 6, "int32", "optional"),
+    Field("m", 7, "string", "map", key="string"),
 )
 SCHEMA = Schema("vfc10", (COLOR,), LIB_MSGS + (
     Msg("W", W_FIELDS),
@@ -40,6 +41,7 @@ ALPHABET: List[Tuple[str, Dict[str, Any], str]] = [
     ("W", {"a": 7, "extra": 99, "o": 0}, "unknown-for-older"),
     ("W2", {"name": "x"}, "second-type"),
     ("W", {"s": "x" * 200}, "long"),
+    ("W", {"m": {"": "", "k": "v"}}, "map-with-default-entry"),
 ]
 _S: Dict[str, Any] = {}
 
@@ -85,10 +87,27 @@ def eval_sequence(seq: Tuple[int, ...], reader: str, tally: Tally) -> List[Viola
     for i in seq:
         tname, aval, _ = ALPHABET[i]
         refproto.serialize_length_prefixed(av.make_ref(SCHEMA, ref, SCHEMA.msg(tname), aval), refout)
-    if refout.getvalue() != want:
-        # same framing, payload compared elsewhere (C02); only lengths/prefix matter here
-        if [len(x) for x in wire.split_delimited(refout.getvalue())] != [len(b) for b in bodies]:
-            raise HarnessError("wire model and reference disagree on length-prefixed framing")
+    # the reference's own stream (its bodies may legally differ in encoding, e.g. map entries
+    # with explicit default key/value) must be framed as the wire model says and be readable
+    try:
+        ref_bodies = wire.split_delimited(refout.getvalue())
+    except wire.WireError as e:
+        raise HarnessError(f"wire model cannot split the reference's length-prefixed stream: {e}")
+    if len(ref_bodies) != len(seq):
+        raise HarnessError("wire model and reference disagree on length-prefixed framing")
+    rs2 = io.BytesIO(refout.getvalue())
+    for k, i in enumerate(seq):
+        tname, aval, _ = ALPHABET[i]
+        cls_k, mdef_k = reader_cls(bp, tname, "same")
+        try:
+            got = cls_k().load(rs2, betterproto.SIZE_DELIMITED)
+            tally.inc("edges")
+            if not av.aval_eq(av.project_bp(SCHEMA, mdef_k, got), av.normalize(SCHEMA, mdef_k, aval)):
+                bad("reads-reference-stream", f"message {k} of the reference-written stream read as {got!r}", {"involved": [labels[k]]})
+                break
+        except Exception as e:
+            bad("reads-reference-stream", f"message {k} of the reference-written stream: {type(e).__name__}: {e}", {"involved": [labels[k]]})
+            break
     if full != want:
         bad("framing", f"stream {full.hex()[:80]} != length-prefixed bodies {want.hex()[:80]}", {})
         return out
@@ -191,7 +210,7 @@ def run(ctx: Ctx) -> None:
     ctx.coverage.update(
         evaluations=t.n.get("cuts", 0),
         distinct_nontrivial=len(t.sets.get("distinct", ())),
-        rule="all message sequences of length <= %d over an 8-message alphabet x {same, older} reader; "
+        rule="all message sequences of length <= %d over a 9-message alphabet x {same, older} reader; "
              "non-trivial/distinct = distinct (sequence, reader) pairs, each evaluated at every cut "
              "point 0..len(stream) (evaluations = stream prefixes loaded)" % maxlen,
         streams=t.n.get("streams", 0),
